@@ -114,16 +114,33 @@ def trace_validation(ctx, rnd):
             s = geomgen.compound(rnd, rnd.randint(1, 2), kinds=None, cmax=2 * U, smax=smax, small_dirs=(U > 4))
         if rnd.random() < 0.4:     # axis-aligned: extremes land exactly on the lattice, strict comparison
             s = force_axis(s, rnd)
+        if i % 11 == 5:
+            # a polygon whose every vertex lies on pixel edges (half-integers), with 3, 5, 6 or 7 vertices (their mean is not a binary fraction):
+            # the box is that of the extreme vertices, no extra row or column
+            U = 2
+            nv = rnd.choice([3, 5, 6, 7])
+            while True:
+                vs = [[2 * rnd.randint(-12, 12) + 1, 2 * rnd.randint(-12, 12) + 1] for _ in range(nv)]
+                if len({tuple(v) for v in vs}) >= 3:
+                    break
+            s = {'k': 'polygon', 'vs': vs, 'inc': rnd.choice(geomgen.INCS)}
         tx, ty = rnd.choice([(0, 0), (3, -5), (1000, 77), (-10000, 4096), (10 ** 6, -3 * 10 ** 6)])
         fr = geom.Frame(U, 1.0, float(tx), float(ty), rnd.randint(0, 5))
+        grow = 1 if (s['k'] in ('circle', 'ellipse', 'rectangle') and i % 3 == 0 and abs(tx) < 10 ** 5) else 0
         try:
             region = geom.build(s, fr)
+            if grow:
+                # every size a hair larger (2^-30 relative: far above rounding noise, far below anything a tolerance would be set to):
+                # extremes that lay exactly on a pixel edge now poke past it
+                for nm in ('radius', 'width', 'height'):
+                    if hasattr(region, nm):
+                        setattr(region, nm, getattr(region, nm) * (1.0 + 2.0 ** -30))
             got = real_box(region)
         except Exception as ex:
             ctx.violation(f"C04|trace|{kind_sig(s)}|{type(ex).__name__}", f'bounding_box raised {ex!r}', {'shape': s, 'U': U})
             continue
         box = [got[0] - tx, got[1] - tx, got[2] - ty, got[3] - ty]
-        events.append({'ev': 'bbox', 'shape': s, 'U': U, 'box': box, 'exact': exact_dirs(s, fr.av), 'frame': vars(fr)})
+        events.append({'ev': 'bbox', 'shape': s, 'U': U, 'box': box, 'exact': exact_dirs(s, fr.av), 'grow': grow, 'frame': vars(fr)})
     validate_events(ctx, events, 'C04')
 
 
